@@ -15,6 +15,33 @@ use sudachi::analysis::Mode;
 use sudachi::dic::dictionary::JapaneseDictionary;
 use sudachi::plugin::path_rewrite::join_numeric::verif_parse;
 
+/// Which of the repairs of the findings F1..F6 the tree under test carries, one `0`/`1` per repair.
+/// Probed on the BEHAVIOUR of the real parser (`verif_parse` on the smallest witness of each
+/// finding), so the answer does not depend on how a repair is worded; the Lean model carries both
+/// behaviours of every switch (`Numeric.Variant`) and reads the token `fix=` of each case line.
+///   F1 "1.5,000"  the separator after the fraction is rejected (pinned: accepted, "1.5")
+///   F2 "1.千5"    the unit after the point is rejected        (pinned: accepted, "1005")
+///   F3 "1,千"     the unit after the open group is rejected   (pinned: accepted, "1000")
+///   F4 "十万一万"  the second 万 is rejected                   (pinned: accepted, "110000")
+///   F5 "0.1万"    normal form "1000"                          (pinned: "01000")
+///   F6 "7十九三." done() fails with error NONE                (pinned: POINT)
+pub fn probe_fixes() -> String {
+    static P: std::sync::OnceLock<String> = std::sync::OnceLock::new();
+    P.get_or_init(|| {
+        let rejected_at = |s: &str, at: usize| -> bool {
+            matches!(catch(|| verif_parse(s)), Ok((n, _, false, _)) if n == at)
+        };
+        let f1 = rejected_at("1.5,000", 3);
+        let f2 = rejected_at("1.千5", 2);
+        let f3 = rejected_at("1,千", 2);
+        let f4 = rejected_at("十万一万", 3);
+        let f5 = matches!(catch(|| verif_parse("0.1万")), Ok((4, 0, true, ref norm)) if norm == "1000");
+        let f6 = matches!(catch(|| verif_parse("7十九三.")), Ok((5, 0, false, _)));
+        [f1, f2, f3, f4, f5, f6].iter().map(|&b| if b { '1' } else { '0' }).collect()
+    })
+    .clone()
+}
+
 pub const ALPHABET: [char; 28] = [
     '0', '1', '2', '3', '4', '5', '6', '7', '8', '9', '〇', '一', '二', '三', '四', '五', '六', '七', '八', '九', '十', '百',
     '千', '万', '億', '兆', ',', '.',
@@ -775,7 +802,7 @@ fn judge_parse(s: &str, n: usize, done: bool, norm: &str) -> Option<(String, Str
 
 fn parse_case(run: &mut Run, cap: &mut FailCap, idx: usize, s: &str, emit: bool, tag: &str) {
     let r = catch(|| verif_parse(s));
-    let payload = format!("s={}", cps(s));
+    let payload = format!("fix={} s={}", probe_fixes(), cps(s));
     let answer = match &r {
         Err(_) => "PANIC".to_string(),
         Ok((n, e, d, norm)) => format!("n={} err={} done={} norm={}", n, e, if *d { 1 } else { 0 }, join(norm.chars().map(|c| c as u32), ",")),
@@ -1032,7 +1059,7 @@ fn pipeline_case(run: &mut Run, dicts: &Dicts, idx: usize, directed: Option<usiz
         })
         .collect::<Vec<_>>()
         .join(";");
-    let payload = format!("en={} variant={} cats={} path={}", if en { 1 } else { 0 }, variant, cats, path);
+    let payload = format!("fix={} en={} variant={} cats={} path={}", probe_fixes(), if en { 1 } else { 0 }, variant, cats, path);
     let with = tokenize(&dicts.with[variant][en as usize], &text, Mode::C);
     let answer = match &with {
         Err(_) => "PANIC".to_string(),
@@ -1161,6 +1188,7 @@ numerals of up to 40 digits (plain/kanji/mixed digits, separators, fractions, sm
 near-miss mutations and random longer strings; op pipeline: real dictionary (digits, units, separators tagged as numerals, shadowing \
 words, full-width forms) with JoinNumericPlugin vs the model's prediction from the un-joined path; non-trivial = at least two \
 symbols (parse) / something was joined (pipeline); distinct by input line".into();
+    run.extra.insert("variant_fixes_F1_F6".into(), serde_json::json!(probe_fixes()));
     let n = run.opts.count;
     let thorough = run.opts.thorough;
     let d1 = DIRECTED.len();
